@@ -46,5 +46,11 @@ def run(ctx):
                 cfg = {'q': q, 'elem': elem, 'epn': str(epn), 'retries': str(ret)}
                 jobs += std_search_jobs(rng, cfg, ctx['seed'], n, thorough, lambda: queue_program(rng, 2 + rng.randint(0, 1), 3))
                 jobs.append((cfg, [queue_program(rng, 1, 14)[0]], 'opseq', 1, ctx['seed'], ()))
+        # node sizes that are not a power of two / are a multiple of the index step of ramalhete_queue (every entries_per_node > 0 is accepted)
+        for epn in (3, 11):
+            cfg = {'q': 'ram', 'elem': 'ptr', 'epn': str(epn), 'retries': '1' if epn == 3 else '0'}
+            jobs.append((cfg, [queue_program(rng, 1, 4 * epn + 6, pushy=0.6)[0]], 'opseq', 1, ctx['seed'], ()))
+            jobs.append((cfg, [['push %d' % i for i in range(1, 2 * epn + 2)] + ['pop'] * (2 * epn + 2)], 'opseq', 1, ctx['seed'], ()))
+            jobs.append((cfg, queue_program(rng, 2, 2 * epn), 'random', n // 2, ctx['seed'], ()))
         fs = do_search(ctx, H, jobs, name, classify=lambda c, h, f, name=name: {'harness': name})
     return tie
